@@ -79,7 +79,7 @@ LEVELS = {'C07': {'text': 'PARTIAL: proof (Verus, unbounded over all value types
                  'Compiler multi-module state and split-equivalence are NOT under contract.',
          'note': 'trusted: Verus+Z3, slicer/splicer, rules R3, KO1-KO3 (path/iterator shims), enumset model over a Set view, Result::clone spec, opaque AST field types with identity Clone'},
  'C13': {'text': 'PARTIAL (small): proof that every variant of Error::code() returns a code that has a section in docs/errors.md (catalogue regenerated from the headings on every run; one named obligation per variant; '
-                 '8 undocumented codes are recorded known findings D7); alpha Location::combined_with yields a forward span that covers both spans tightly and keeps the primary line/position; delta token-location '
+                 'the 8 codes that had no section, D7, were documented by the repair d4dc545); alpha Location::combined_with yields a forward span that covers both spans tightly and keeps the primary line/position; delta token-location '
                  'arithmetic cannot underflow. Alpha lexer span exactness is proved under C14. Rendering (ariadne) and run-to-run determinism (HashMap/HashSet iteration) are NOT under contract.',
          'note': 'trusted: Verus+Z3, slicer/splicer, heading parser of docs/errors.md'},
  'C14': {'text': "PARTIAL: each lexer verified (Verus, unbounded over all inputs) against its own declarative spec. ALPHA (lex, lex_line, parse_integer_suffix, is_identifier_continuation): every token's span is "
